@@ -481,6 +481,58 @@ def check_typestate(s):
                  necessary_for="the same observation at reset and the same reward/termination on the first step as Gymnasium v5 (derived fields are zero without forward kinematics)")
         else:
             s.ob("C17.9", f"{cls}.initial", True, "no derived field is read from the initial data: forward kinematics at reset are not required", loc)
+    # C17.9b force-related fields (cfrc_ext, cacc, cfrc_int) are produced only by the post-constraint RNE pass, which neither mj_step
+    # nor mjx.step runs: the reference's _step_mujoco_simulation calls mj_rnePostConstraint after stepping, and an environment that
+    # reads such a field from the successor data must run mjx's rne_postconstraint after its last step (they are identically 0 otherwise)
+    POST = {"cfrc_ext", "cacc", "cfrc_int"}
+    gci, gdc, gfn = gymref.method("MujocoEnv", "_step_mujoco_simulation")
+    ref_calls = [ast.unparse(n_.func) for n_ in ast.walk(gfn) if isinstance(n_, ast.Call)]
+    if not any(c.endswith("mj_rnePostConstraint") for c in ref_calls):
+        raise AnalysisError("C17.9b: the reference's _step_mujoco_simulation no longer calls mj_rnePostConstraint (premise of the rule)")
+    bt = s.builder(inline=set())
+    for cls in MUJOCO:
+        ci = P.cls(cls)
+        readers = []
+        for meth in ("observation", "reward", "transition_info", "terminal", "state_info"):
+            r = P.resolve_method(ci, meth)
+            if r is None:
+                continue
+            for c2 in P.mro(ci):
+                pass
+            flds = set()
+            todo = [r[1]]
+            seen_fn = set()
+            while todo:
+                f_ = todo.pop()
+                if id(f_) in seen_fn:
+                    continue
+                seen_fn.add(id(f_))
+                for n_ in ast.walk(f_):
+                    if isinstance(n_, ast.Attribute) and n_.attr in POST:
+                        flds.add(n_.attr)
+                    if isinstance(n_, ast.Call) and isinstance(n_.func, ast.Attribute) and isinstance(n_.func.value, ast.Name) and n_.func.value.id == "self":
+                        rr = P.resolve_method(ci, n_.func.attr)
+                        if rr is not None:
+                            todo.append(rr[1])
+            if flds:
+                readers.append(f"{meth} reads {sorted(flds)}")
+        rt = P.resolve_method(ci, "transition")
+        pt = one(bt.paths(rt[1], Ctx(rt[0].module, rt[0], rt[1], ci)), f"{cls}.transition")
+        upd = pt.ret
+        post_calls = [c for c in walk(upd) if isinstance(c, tuple) and c and c[0] == "call" and isinstance(c[1], tuple) and c[1][0] == "global" and c[1][1].endswith("rne_postconstraint")]
+        outer_ok = False
+        if post_calls:
+            # the post-constraint pass must wrap the result of the stepping scan (run after the last step), not precede it
+            pc = post_calls[0]
+            outer_ok = any(isinstance(x, tuple) and x and x[0] == "scan" for x in walk(pc[2][1] if len(pc[2]) > 1 else NONE))
+        loc = P.loc(rt[0].module, rt[1])
+        if readers:
+            s.ob("C17.9", f"{cls}.transition", bool(post_calls) and outer_ok,
+                 "force-related fields are read, so the transition runs rne_postconstraint on the data after its last simulation step (as the reference's mj_rnePostConstraint)", loc,
+                 key="no-postconstraint-pass", detail="; ".join(readers) + f"; post-constraint calls in transition: {len(post_calls)}",
+                 necessary_for="contact / impact costs and the contact-force part of the observation equal Gymnasium v5's (they are identically zero without the pass)")
+        else:
+            s.ob("C17.9", f"{cls}.transition", True, "no force-related field is read: the post-constraint pass is not required", loc)
     # sibling evidence: the G1 environments do forward
     for cls in ("G1Locomotion", "G1Standing", "G1Standup"):
         bi = s.builder(inline=set())
@@ -587,6 +639,11 @@ def check(s):
     n15 = 0
     for cls in list(MUJOCO) + ["CartPole", "MountainCar", "ContinuousMountainCar", "Acrobot", "Pendulum"]:
         n15 += ctor_wiring(s, "C17.15", cls, necessary_for="the reward weights, limits and flags of the reference MDP are the ones configured (defaults equal Gymnasium's: C17.7)")
+    # C17.16 the Gym-style step through which the reference MDP is observed (env.step, used by the Gymnasium / gymnax adapters) reports the
+    # reward, flags and info of the transition taken and resets lazily: the same composition rules as C01, carried here because a
+    # reward computed against the auto-reset state pays the wrong terminal-step reward in every environment
+    from .C01 import check_step
+    check_step(s, lambda i: "C17.16")
     for r_, n_ in (("C17.14", 22), ("C17.15", 100), ("C17.1", 30), ("C17.2", 4), ("C17.3", 4), ("C17.4", 9), ("C17.5", 8), ("C17.7", 88), ("C17.8", 18), ("C17.9", 11), ("C17.10", 100), ("C17.11", 30),
                    ("C17.12", 5), ("C17.13", 20)):
         s.floor(r_, n_)
